@@ -84,7 +84,11 @@ func (g *gen) connect() {
 		o.Clean = true
 	}
 	if r.Chance(40) {
+		// a client usually reconnects with the same will topic and payload; QoS and retain vary
 		o.Will, o.WillTopic, o.WillMsg, o.WillQoS, o.WillRet = true, "will/"+nameVocab[r.Intn(3)], r.Bytes(1+r.Intn(5)), r.Intn(3), r.Chance(20)
+		if cid != "" && r.Chance(75) {
+			o.WillTopic, o.WillMsg = "will/"+cid, []byte("gone "+cid)
+		}
 	}
 	if r.Chance(20) {
 		o.User, o.Pass = "u", "p"
@@ -261,7 +265,101 @@ func (g *gen) step() {
 	}
 }
 
+// several connections hold the same filter at different QoS; they leave in a random order (UNSUBSCRIBE,
+// DISCONNECT, abrupt close) while a publisher keeps publishing at QoS 1 / 2
+func genHotFilter(r *hx.Rng) []hx.Group {
+	var evs []hx.Group
+	f := filterVocab[r.Intn(len(filterVocab))]
+	t := strings.NewReplacer("+", "k", "#", "k").Replace(f)
+	n := 3 + r.Intn(3)
+	evs = append(evs, evConnect(1, true, mq.Connect(mq.ConnectOpts{ClientID: "pub", Clean: true, KeepAlive: 60, Flags: -1})))
+	var live []int
+	for i := 0; i < n; i++ {
+		id := 2 + i
+		evs = append(evs, evConnect(id, true, mq.Connect(mq.ConnectOpts{ClientID: fmt.Sprintf("s%d", id), Clean: r.Bool(), KeepAlive: 60, Flags: -1})))
+		evs = append(evs, evBytes(id, mq.Subscribe(10+i, []string{f}, []int{r.Intn(3)})))
+		live = append(live, id)
+	}
+	pid := 1
+	pub := func() {
+		q := 1 + r.Intn(2)
+		pid++
+		evs = append(evs, evBytes(1, mq.Publish(t, r.Bytes(1+r.Intn(6)), q, false, false, pid)))
+		if q == 2 {
+			evs = append(evs, evBytes(1, mq.Ack(mq.PUBREL, pid)))
+		}
+	}
+	pub()
+	for len(live) > 1 {
+		j := r.Intn(len(live))
+		id := live[j]
+		live = append(live[:j], live[j+1:]...)
+		switch r.Intn(3) {
+		case 0:
+			evs = append(evs, evBytes(id, mq.Unsubscribe(99, []string{f})))
+		case 1:
+			evs = append(evs, evBytes(id, mq.Disconnect()))
+		default:
+			evs = append(evs, evDrop(id))
+		}
+		pub()
+		if r.Chance(25) {
+			evs = append(evs, evBytes(live[r.Intn(len(live))], mq.Subscribe(77, []string{f}, []int{r.Intn(3)})))
+			pub()
+		}
+	}
+	return evs
+}
+
+// one client identifier connects again and again (mostly CleanSession=0) with the same will topic and
+// payload but varying will QoS / retain, or without a will, and ends in every possible way; a watcher
+// holds will/# and a late subscriber looks at what was retained
+func genWillSessions(r *hx.Rng) []hx.Group {
+	var evs []hx.Group
+	evs = append(evs, evConnect(1, true, mq.Connect(mq.ConnectOpts{ClientID: "watch", Clean: true, KeepAlive: 60, Flags: -1})))
+	evs = append(evs, evBytes(1, mq.Subscribe(1, []string{"will/#"}, []int{2})))
+	id := 1
+	for i, n := 0, 3+r.Intn(4); i < n; i++ {
+		id++
+		o := mq.ConnectOpts{ClientID: "dev", Clean: r.Chance(20), KeepAlive: 60, Flags: -1}
+		if r.Chance(80) {
+			o.Will, o.WillTopic, o.WillMsg, o.WillQoS, o.WillRet = true, "will/dev", []byte("gone"), r.Intn(3), r.Chance(35)
+			if r.Chance(15) {
+				o.WillMsg = []byte("other")
+			}
+		}
+		evs = append(evs, evConnect(id, true, mq.Connect(o)))
+		if r.Chance(30) {
+			evs = append(evs, evBytes(id, mq.Publish("a", []byte("x"), 0, false, false, 0)))
+		}
+		switch r.Intn(4) {
+		case 0:
+			evs = append(evs, evBytes(id, mq.Disconnect()))
+		case 1:
+			evs = append(evs, evBytes(id, []byte{0xf0, 0x00}))
+		default:
+			evs = append(evs, evDrop(id))
+		}
+		if r.Chance(40) {
+			id++
+			evs = append(evs, evConnect(id, true, mq.Connect(mq.ConnectOpts{ClientID: "late", Clean: true, KeepAlive: 60, Flags: -1})))
+			evs = append(evs, evBytes(id, mq.Subscribe(2, []string{"will/dev"}, []int{r.Intn(3)})))
+			evs = append(evs, evBytes(id, mq.Disconnect()))
+		}
+		if r.Chance(20) {
+			evs = append(evs, evBytes(1, mq.Publish("will/dev", nil, 0, true, false, 0))) // clear what was retained
+		}
+	}
+	return evs
+}
+
 func genHistory(r *hx.Rng, focus string) []hx.Group {
+	switch k := r.Intn(100); {
+	case k < 18:
+		return genHotFilter(r)
+	case k < 32:
+		return genWillSessions(r)
+	}
 	g := &gen{r: r, inproc: map[int][]string{}}
 	n := 12 + r.Intn(40)
 	g.connect()
